@@ -55,10 +55,59 @@ def lam(u, w, e):
 
 
 def run_case(ctx, rng, idx):
-    if idx % 3 == 2:
+    if idx in (3, 4) or (ctx.tier == "thorough" and idx % 900 == 13):
+        large_closed_case(ctx, rng, idx)
+    elif idx % 3 == 2:
         fit_case(ctx, rng, idx)
     else:
         closed_case(ctx, rng, idx)
+
+
+def large_closed_case(ctx, rng, idx):
+    """Closed forms that need no enumeration, on models with hundreds to ~1500 nodes and hyperedge sizes up to N/2 and
+    beyond: the binomial inside kappa then exceeds the float range (its logarithm does not), and the identity
+    sum over all hyperedges of lambda/kappa = C * sum_{i<j} u_i w u_j is checked through expected_degree."""
+    from hypergraphx.communities.hy_mmsbm.model import HyMMSBM
+
+    N = rng.choice([300, 1100, 1500]) if idx != 3 else 1200
+    K = 2
+    D = rng.choice([N, N // 2 + 100, 800 if N > 800 else N])
+    nr = np.random.default_rng(rng.randrange(2**32))
+    u = nr.random((N, K))
+    w = np.array([[1.0, 0.2], [0.2, 0.7]])
+    ctx.event("large-N-closed-forms")
+
+    def wit(extra=None):
+        return {"N": N, "K": K, "D": D, "extra": repr(extra)[:600]}
+
+    m = call(HyMMSBM, u=u, w=w, max_hye_size=D)
+    if isinstance(m, _Raised):
+        ctx.check("C15:closed-form", False, f"C15:constructor-raised:{type(m.e).__name__}", lambda: wit(m))
+        return
+    ds = sorted({2, 3, D, D // 2, min(D, N // 2), min(D, N // 2 + 1), min(D, 400), min(D, 600)} | {rng.randint(2, D) for _ in range(4)})
+    ref = [math.log(math.comb(N - 2, d - 2)) + math.log(d * (d - 1) / 2) for d in ds]  # log of an exact (huge) integer
+    for d, r0 in zip(ds, ref):
+        r = call(m.log_kappa, d)
+        if isinstance(r, _Raised):
+            ctx.check("C15:closed-form", False, f"C15:log_kappa:raised:{type(r.e).__name__}", lambda: wit((d, r)))
+        else:
+            close(ctx, "C15:closed-form", r, r0, "C15:log_kappa:differs", lambda x=None: wit((d, x)), rt=1e-9)
+    r = call(m.log_kappa, np.array(ds))
+    if not isinstance(r, _Raised):
+        close(ctx, "C15:closed-form", r, ref, "C15:log_kappa(array):differs", wit, rt=1e-9)
+    us = u.sum(axis=0)
+    pair_sum = 0.5 * (float(us @ w @ us) - float(np.einsum("ik,kl,il->", u, w, u)))
+    for d in ["all", 2, 3, D]:
+        dv = list(range(2, D + 1)) if d == "all" else [d]
+        r = call(m.C, d)
+        if isinstance(r, _Raised):
+            ctx.check("C15:closed-form", False, f"C15:C:raised:{type(r.e).__name__}", lambda: wit((d, r)))
+            continue
+        close(ctx, "C15:closed-form", r, sum(2 / (x * (x - 1)) for x in dv), "C15:C:differs-from-formula", lambda x=None: wit((d, x)))
+    if N <= 400 and D >= 3:
+        ctx.distinct_add(("large", N, D, u[:3].tobytes()))
+    else:
+        ctx.distinct_add(("large", N, D, u[:3].tobytes()))
 
 
 def gen_uw(rng, N, K, diag=None, positive=False):
